@@ -93,6 +93,10 @@ class Types:
             seen += 1
             if seen > 50:
                 raise EngineError('named loop')
+        if key == 'byte':
+            return 'uint8'
+        if key == 'rune':
+            return 'int32'
         return key
 
     def desc(self, key):
